@@ -55,6 +55,7 @@ def build(case):
     kind = case["kind"]
     if "cvx" in case:
         V, _, _, _ = zoo.apply_placement(case["place"], zoo.build_convex(case["cvx"])["verts"])
+        V = V * 10.0 ** case.get("xs", 0.0)  # optional extreme uniform scale (length units of 1e-9 .. 1e6)
         size = 2 * float(np.max(np.linalg.norm(V - V.mean(axis=0), axis=1)))
         r = 10.0 ** case["radius"] * size
         if kind == "ConvexPolyhedron":
@@ -67,7 +68,7 @@ def build(case):
     if "poly" in case:
         xy = gp.build_polygon_xy(case["poly"])
         em = gp.embed(xy, case["emb"])
-        V, arg = em["verts"], em["normal_arg"]
+        V, arg = em["verts"] * 10.0 ** case.get("xs", 0.0), em["normal_arg"]
         size = 2 * float(np.max(np.linalg.norm(V - V.mean(axis=0), axis=1)))
         kw = {} if arg is None else {"normal": arg.copy() if isinstance(arg, np.ndarray) else arg}
         if kind == "Polygon":
